@@ -48,8 +48,17 @@ type frame struct {
 	freeVars []Val
 	curCallArgs []ssa.Value
 	curEnv   map[ssa.Value]Val
+	errCalls []errCall // C03 schema: fallible calls made by this frame
+	exemptC03 bool     // inside a call tree whose error is deliberately swallowed
 	order    []nkey
 	succs    map[nkey][]nkey
+}
+
+type errCall struct {
+	callee string
+	err    string
+	pos    string
+	reach  string
 }
 
 type nkey struct{ idx, iter int }
@@ -141,7 +150,7 @@ func findLoops(fn *ssa.Function) []*loopInfo {
 // execFunc symbolically executes fn from state st under condition reach.
 // It returns the merged results, the final state and the condition of normal return.
 func (vc *VC) execFunc(fn *ssa.Function, args []Val, st *State, reach string, depth int, contract *Contract) ([]Val, *State, string) {
-	fr := &frame{vc: vc, fn: fn, depth: depth, args: args, contract: contract, loopOf: map[*ssa.BasicBlock]*loopInfo{}}
+	fr := &frame{vc: vc, fn: fn, depth: depth, args: args, contract: contract, loopOf: map[*ssa.BasicBlock]*loopInfo{}, exemptC03: vc.exemptC03 > 0}
 	if contract == nil {
 		contract = vc.eng.specs.contracts[fnKey(fn)]
 		fr.contract = contract
